@@ -172,6 +172,58 @@ def run(ctx):
         if (b, a) in eq and eq[(b, a)] != v:
             ctx.pfails.append(("eql:symmetry", "eql(a,b) != eql(b,a): %s %s" % (a[:100], b[:100]), "jwk.eql", {"a": json.loads(a), "b": json.loads(b)}, {"r": v}))
     ctx.count("eql-pairs", len(eq))
+    run_convert(ctx, pool)
+
+
+def run_convert(ctx, pool):
+    """conversion to OpenSSL and back preserves the members the thumbprint is computed from (hence the thumbprint and
+    equality): every pool key, and EC keys whose x / y begin with a zero byte (fixed-width coordinates)"""
+    import os
+    lz = json.load(open(os.path.join(K.VERIF, "corpus", "keys", "leading_zero.json")))
+    keys = [(n, k) for n, k in sorted(pool.items()) if k["kty"] != "oct"] + sorted(lz.items())
+    keys += [(n + "-public", K.public(k)) for n, k in keys]
+    ops = [("ossl.roundtrip", {"jwk": k}) for n, k in keys]
+    real = ctx.real(ops)
+    back = []
+    for (n, k), r in zip(keys, real):
+        ctx.evaluations += 1
+        if "crash" in r:
+            ctx.pfails.append(("crash:ossl.roundtrip", r["crash"], "ossl.roundtrip", {"jwk": k}, r))
+            continue
+        j = r.get("jwk")
+        if not r.get("imported") or not isinstance(j, dict):
+            ctx.pfails.append(("convert:refused", "key %s does not survive conversion to OpenSSL and back" % n, "ossl.roundtrip", {"jwk": k}, r))
+            continue
+        req = {"EC": ["kty", "crv", "x", "y"], "RSA": ["kty", "n", "e"]}[k["kty"]]
+        for m in req + (["d"] if "d" in k else []):
+            if j.get(m) != k.get(m):
+                ctx.pfails.append(("convert:member", "member %r of %s changes in conversion to OpenSSL and back: %r -> %r" % (m, n, k.get(m), j.get(m)),
+                                   "ossl.roundtrip", {"jwk": k}, r))
+                break
+        else:
+            back.append((n, k, j))
+    eq = ctx.real([("jwk.eql", {"a": k, "b": j}) for n, k, j in back])
+    for (n, k, j), r in zip(back, eq):
+        ctx.evaluations += 1
+        if not r.get("r"):
+            ctx.pfails.append(("convert:eql", "%s is not equal to its own round trip" % n, "jwk.eql", {"a": k, "b": j}, r))
+    # the same keys through generation-independent consumers: exchange results are fixed-width too
+    ex = []
+    for n, k in sorted(lz.items()):
+        peer = pool[{"P-256": "EC-P256", "P-384": "EC-P384", "P-521": "EC-P521", "secp256k1": "EC-K256"}[k["crv"]]]
+        if k["crv"] != "secp256k1":
+            ex.append(("jwk.exc", {"prv": dict(peer, alg="ECMR"), "pub": dict(K.public(k), alg="ECMR"), "_k": k, "_peer": peer}))
+    import ecmath as EC
+    sent = [(o, {kk: v for kk, v in a.items() if not kk.startswith("_")}) for o, a in ex]
+    for (o, a), r in zip(ex, ctx.real(sent)):
+        ctx.evaluations += 1
+        v = r.get("v")
+        if v:
+            c = EC.CURVES[a["_k"]["crv"]]
+            for m in ("x", "y"):
+                if len(K.b64d(v[m])) != c["len"]:
+                    ctx.pfails.append(("convert:width", "exchange result has a %d-byte %s on %s" % (len(K.b64d(v[m])), m, a["_k"]["crv"]), o, sent[0][1], r))
+    ctx.count("converted-keys", len(keys))
 
 
 def replay(ctx, rp):
